@@ -51,6 +51,16 @@ check("C10", "exploration",
       "Trusted: barycentric grid geometry (checked by C11), numpy least squares for the affine map.",
       "exhaustive enumeration (mesh x space x element x sub-triangle x unit vector) against geometry-derived reference")
 
+check("C01", "exploration",
+      "Exhaustive lattice mesh x transformation x (regular, singular) order pair x affine basis {1,x,y,z} (exact reduction of 'all "
+      "affine u' by linearity) on benign closed polyhedra: convex, non-convex, genus 1, two components, nested components; six real "
+      "operator assemblies per tuple; residual of both Calderon identities against quadrature-class thresholds and a no-growth "
+      "ladder condition. Coverage of all 9+9 singular remap classes reachable on oriented surfaces is asserted.",
+      "DESIGN.md 4/C01",
+      "Trusted: the identities themselves; QUAD-class thresholds (1e-6 at the top of the order lattice). Data outside the mesh lattice "
+      "(extreme aspect ratios) not covered.",
+      "exhaustive lattice sweep (mesh x labelling/motion x order pair) against the analytic Calderon identities")
+
 ALL = ["C%02d" % i for i in range(1, 21)]
 
 
